@@ -14,6 +14,10 @@ const RACE_DELAY: Duration = Duration::from_millis(200);
 /// against each other and the first to connect successfully wins the race.
 pub fn connect(host: &Host<&str>, port: u16, timeout: Duration, deadline: Option<Instant>) -> io::Result<TcpStream> {
     let addrs: Vec<_> = match *host {
+        #[cfg(feature = "verif-hooks")]
+        Host::Domain(domain) if crate::verif_hooks::resolve_override(domain).is_some() => {
+            crate::verif_hooks::resolve_override(domain).unwrap_or_default()
+        }
         Host::Domain(domain) => (domain, port).to_socket_addrs()?.collect(),
         Host::Ipv4(ip) => return TcpStream::connect_timeout(&(IpAddr::V4(ip), port).into(), timeout),
         Host::Ipv6(ip) => return TcpStream::connect_timeout(&(IpAddr::V6(ip), port).into(), timeout),
